@@ -10,6 +10,8 @@ SPEC = {
         "panics, stack exhaustion, hangs and the rendering of diagnostics (Display, Debug, JSON, labels and patches) are run-time facts: they are observed per generated input in a child process (512 MiB stack thread, 30 s per case), not proved",
         "every observation is made under a matrix of compiler configurations: default, relaxed_re_syntax, error_on_slow_pattern+error_on_slow_loop, linters (rule name, allowed tags, required metadata), ignore_module+ban_module, condition_optimization+colours+narrow width+max_warnings; each generated source runs under the default and two others",
         "that an aborted rule carries an error is tied to the code by two regenerated obligations: cst2ast.rs has exactly one Abort site that neither follows an ERROR node nor an errors.push (Builder::begin's kind test), and the digest of (grammar productions, per-builder-function begin/end/expect/peek/call sequence) equals the reviewed pin in Compiler/CstAgreement.v; a change of either side must be reviewed and re-pinned",
+        "line and column of every label of every error and warning (serialized form) are compared with an independent computation from the byte span: K pins what the report builder does (a line ends at \\n; \\r\\n counts once; a lone \\r is not a line end), S accepts that or the universal-newline reading; the diagnostic's own line/column must be its first label's and the `-->` of the rendered text must be a label's",
+        "accounting is per rule: every RULE_DECL node of the CST must be built, or ignored, or overlapped by the label of an error",
         "rule accounting is proved over a model whose arms (build_ast's Ok/Abort/MaxDepthReached arms, c_items' Err arm, c_rule's tolerated-error arms) are regenerated from the source; that an aborted rule carries at least one error is a hypothesis of ast_no_rule_lost, evaluated by S on every input (accepted without errors => every declared rule is built or ignored)",
         "the UTF-8 model follows the maximal-subpart rule of std::str::from_utf8; the compiler uses bstr::to_str, which K compares through the span of the reported E032 label",
         "parser totality (no engine assert fires, the interpreter is structurally recursive) is the C10 theorem lossless_balanced over Parser/Machine.v",
@@ -25,7 +27,8 @@ RULE = ("every case runs Compiler::new().add_source(bytes), Display/title/labels
         "literals in every literal position (xor bounds, hex jumps, base64 alphabets, ranges, percentages, indexes, meta), warnings whose "
         "fix spans several lines, regexps that relaxed_re_syntax repairs (literal braces, unknown escapes) followed by a genuine error "
         "with multi-byte characters around, and a systematic sweep: every token of 15 small rules covering every production, deleted "
-        "and duplicated in turn. Every generated source runs under 3 of 6 compiler configurations. Non-trivial: >= 10 bytes; "
+        "and duplicated in turn; sources with 2-5 rules of mixed fate (fine / compile error / syntax error / depends on an ignored "
+        "module / too deep) in every order; a third of the sources rewritten with CRLF, lone CR or mixed line endings. Every generated source runs under 3 of 6 compiler configurations. Non-trivial: >= 10 bytes; "
         "distinct by source bytes.")
 
 
